@@ -82,6 +82,9 @@ class CallMixin:
                 return self.static_val(BoundBuiltin(f'{c.name}.{name}', obj))
             if c.is_subclass(builtin_class('BaseException')) and name == 'with_traceback':
                 return self.static_val(BoundBuiltin('exc.with_traceback', obj))
+            om = getattr(self, 'oracle_methods', {}).get(c.name, {})
+            if name in om:
+                return self.static_val(BoundBuiltin(f'oracle.{c.name}.{name}', obj))
             return self.read_data_attr(obj, c, name, node)
         groups = self.member_groups(c, name)
         if len(groups) > 1:
